@@ -259,6 +259,17 @@ def run_one(seed, dec):
     return base.result(rc, prog, nontrivial=bool(kinds), distinct_extra=kinds)
 
 
+def _squeeze(calls):
+    """Call kinds with runs of flushes (and flushes before the first write) reduced to what the statement
+    asks for: a write, then a flush."""
+    out = []
+    for k in calls:
+        if k == "flush" and (not out or out[-1] == "flush"):
+            continue
+        out.append(k)
+    return out
+
+
 def oracle_io_faults(rc):
     """With write/flush errors injected into the binary file only the write discipline is checked, narrowly:
     every write call that was made carries exactly one complete line, no line is handed to the file twice,
@@ -287,10 +298,10 @@ def oracle_io_faults(rc):
     n = len(rc.tap.records)
     calls = [c[0] for c in rc.ftxt.calls]
     if rc.cfg["world"] != "seq":
-        if calls.count("write") != n or calls.count("flush") != n:
+        if calls.count("write") != n or calls.count("flush") < n:
             raise Violation(("write_discipline", {"faults": True}),
                             "the healthy file got %d messages as %s" % (n, calls[:12]))
-    elif calls != ["write", "flush"] * n:
+    elif [c for c in _squeeze(calls)] != ["write", "flush"] * n:
         raise Violation(("write_discipline", {"faults": True}),
                         "the healthy file got %d messages as %s" % (n, calls[:12]))
     return ("io_faults",)
@@ -306,19 +317,25 @@ def oracle(rc):
                         "between logging calls file %s ended in %r with %r unflushed" % (name, oc, ub))
     n = len(rc.tap.records)
     for f in (rc.fbin, rc.ftxt):
+        # one write per message, each followed by a flush before the next write (SEQ) / before the thread's
+        # logging call returns (THREADS: counted, and no unflushed data at any quiescent instant, see
+        # dirty_seen); further flushes are the implementation's business
+        kinds_ = [c[0] for c in f.calls]
+        if kinds_.count("write") != n or kinds_.count("flush") < n:
+            raise Violation("write_discipline", "file %s: %d messages but calls %s" % (f.name, n, kinds_[:12]))
+        if rc.cfg["world"] == "seq":
+            flushed = True
+            for i, k in enumerate(kinds_):
+                if k == "write":
+                    if not flushed:
+                        raise Violation("write_discipline", "file %s: two writes with no flush in between: %s" % (
+                            f.name, kinds_[max(0, i - 3):i + 2]))
+                    flushed = False
+                elif k == "flush":
+                    flushed = True
+            if not flushed:
+                raise Violation("write_discipline", "file %s: the last write was not followed by a flush" % f.name)
         calls = f.calls
-        if len(calls) != 2 * n:
-            raise Violation("write_discipline", "file %s: %d messages, call log has %d entries: %s" % (
-                f.name, n, len(calls), [c[0] for c in calls][:12]))
-        seq = rc.cfg["world"] == "seq"
-        if [c[0] for c in calls].count("write") != n or [c[0] for c in calls].count("flush") != n:
-            raise Violation("write_discipline", "file %s: %d messages but calls %s" % (
-                f.name, n, [c[0] for c in calls][:12]))
-        for i in range(n):
-            w, fl = calls[2 * i], calls[2 * i + 1]
-            if seq and (w[0] != "write" or fl[0] != "flush"):
-                raise Violation("write_discipline", "file %s: message %d was written as %s, %s" % (
-                    f.name, i, w[0], fl[0]))
         for w in calls:
             if w[0] != "write":
                 continue
@@ -372,7 +389,7 @@ def oracle(rc):
             node.start = _reorder_sets(node.start, m)
         elif node.fields is not None:
             node.fields = _reorder_sets(node.fields, m)
-    O.check_forest(msgs, rc.model, order_free=False)
+    O.check_forest(msgs, rc.model, order_free=False, lenient=True, require_complete=False)
     return tuple(sorted(kinds))
 
 
